@@ -87,7 +87,8 @@ Route(s, c) ==
 WF(s) ==
   CASE s.kind = "roster" -> s.shape = "ok" /\ Len(s.items) = 1 /\ ValidItem(s.items[1])
     [] s.kind = "carbon" -> s.shape \in {"ok", "delay", "bodyfirst", "bodylast"}
-    [] s.kind \in {"block", "unblock"} -> \A i \in 1..Len(s.items) : ValidItem(s.items[i])
+    [] s.kind = "block" -> s.items # <<>> /\ \A i \in 1..Len(s.items) : ValidItem(s.items[i])   \* XEP-0191 3.3: no item = bad request
+    [] s.kind = "unblock" -> \A i \in 1..Len(s.items) : ValidItem(s.items[i])                  \* no item = unblock everything
     [] OTHER -> TRUE
 
 RosterCb(s, it) == [cb |-> "roster", ver |-> s.ver, jid |-> it.jid, name |-> it.name, sub |-> it.sub, groups |-> it.groups]
@@ -242,6 +243,17 @@ Safety ==
   /\ P_RosterAuthorised /\ P_CarbonAuthorised /\ P_OnlyRegistered /\ P_FieldsCarried /\ P_ExactlyOnce
   /\ P_AtMostOneReply /\ P_ReplyAddressed /\ P_ReplyMeaning /\ P_ExactlyOneReply /\ P_ServeEnds
   /\ P_HelperRequest /\ P_HelperResult
+
+AllProps == {"P_RosterAuthorised", "P_CarbonAuthorised", "P_OnlyRegistered", "P_FieldsCarried", "P_ExactlyOnce", "P_AtMostOneReply",
+             "P_ReplyAddressed", "P_ReplyMeaning", "P_ExactlyOneReply", "P_ServeEnds", "P_HelperRequest", "P_HelperResult"}
+(* the conjunction of the named properties only (diagnosis of a rejected trace: which property rejects it?) *)
+SafetyOf(only) ==
+  /\ ("P_RosterAuthorised" \in only => P_RosterAuthorised) /\ ("P_CarbonAuthorised" \in only => P_CarbonAuthorised)
+  /\ ("P_OnlyRegistered" \in only => P_OnlyRegistered) /\ ("P_FieldsCarried" \in only => P_FieldsCarried)
+  /\ ("P_ExactlyOnce" \in only => P_ExactlyOnce) /\ ("P_AtMostOneReply" \in only => P_AtMostOneReply)
+  /\ ("P_ReplyAddressed" \in only => P_ReplyAddressed) /\ ("P_ReplyMeaning" \in only => P_ReplyMeaning)
+  /\ ("P_ExactlyOneReply" \in only => P_ExactlyOneReply) /\ ("P_ServeEnds" \in only => P_ServeEnds)
+  /\ ("P_HelperRequest" \in only => P_HelperRequest) /\ ("P_HelperResult" \in only => P_HelperResult)
 
 -----------------------------------------------------------------------------
 (* MECHANISM *)
